@@ -44,7 +44,8 @@ def site_derived(stable_name):
     parts = stable_name.split('/', 2)
     if len(parts) < 3:
         return False
-    return re.split(r'[.@]', parts[2])[0] in SITE_HEADS
+    last = re.sub(r'^(tintf|intf)\.', '', parts[2])
+    return re.split(r'[.@]', last)[0] in SITE_HEADS
 
 
 _EXCACHE = {}
@@ -132,9 +133,17 @@ def phase12(task):
     out['skipped'] = sorted(set(nm for nm in out['names'] if nm in skip))
     k = min(fan, max(1, len(idxs) // 24))
     t0 = time.time()
+    # thorough tier: the families that are not claimed (they never passed) are tried again, with the short limit
+    extra_idxs = []
+    if tier == 'thorough' and task[4] == set() and _G.get('unclaimed'):
+        unc = _G['unclaimed']
+        extra_idxs = [i for i in idxs if out['names'][i] in unc]
+        idxs = [i for i in idxs if out['names'][i] not in unc]
     try:
+        if extra_idxs:
+            out['results'] += discharge_idxs(target, mode, min(timeout, 8000), tier, extra_idxs[:40])
         if k <= 1:
-            out['results'] = discharge_idxs(target, mode, timeout, tier, idxs)
+            out['results'] += discharge_idxs(target, mode, timeout, tier, idxs)
         else:
             tmpd = tempfile.mkdtemp(prefix='govc_fan_')
             pids = []
@@ -270,6 +279,7 @@ def main():
                                'reason': 'function under contract no longer exists with this name/receiver',
                                'where': '%s:%d' % (con.file, con.line), 'model': None, 'probes': {}})
     _G['hints'] = load_baseline().get(pid + '!hints', {})
+    _G['unclaimed'] = set(load_baseline().get(pid + '!unclaimed', [])) if not a.write_baseline else set()
     ctx = mp.get_context('fork')
     results = []
     skipped_unclaimed = set()
@@ -370,8 +380,17 @@ def main():
                 vac.append((name, status))
     baseline = load_baseline()
     if a.write_baseline:
-        baseline[pid] = sorted(s for s in by_stable if s not in failed)
-        baseline[pid + '!unclaimed'] = sorted(s for s in failed if not any(f['obligation'] == s for f in kf))
+        # a family is claimed only if every instance is discharged comfortably inside the quick budget: one that needed
+        # the long retry, or more than 20 s, would turn solver time-outs under load into alarms on unchanged code
+        slow = set()
+        for s_, rs in by_stable.items():
+            if any(x['status'] == 'unsat' and (x.get('time', 0) > 20 or '+retry' in (x.get('solver') or '')) for x in rs):
+                slow.add(s_)
+        slow = set(s_ for s_ in slow if not (set(by_stable[s_][0]['tags']) & {'C01', 'C02', 'C03', 'C04', 'C05', 'C06', 'C07', 'C08', 'C09', 'C10', 'C11', 'C13', 'C14', 'C15', 'C16'}))
+        if slow:
+            print('not claimed because slow (supporting obligations only): %s' % ', '.join(sorted(slow))[:600])
+        baseline[pid] = sorted(s for s in by_stable if s not in failed and s not in slow)
+        baseline[pid + '!unclaimed'] = sorted(set(s for s in failed if not any(f['obligation'] == s for f in kf)) | slow)
         hints = {}
         for s_, rs in by_stable.items():
             for x in rs:
@@ -384,6 +403,11 @@ def main():
         baseline[pid + '!hints'] = hints
         json.dump(baseline, open(os.path.join(ROOT, 'baseline_obligations.json'), 'w'), indent=1, sort_keys=True)
         print('baseline for %s: %d obligations' % (pid, len(baseline[pid])))
+        # what is not claimed is not part of the record of this run either (same as a quick run, which skips it)
+        unc_ = set(baseline[pid + '!unclaimed'])
+        allres = [r for r in allres if r['stable'] not in unc_]
+        nobl = len(allres)
+        discharged = sum(1 for r in allres if r['status'] == 'unsat')
     base = set(baseline.get(pid, []))
     exit_code = 0
     unclaimed = set()
